@@ -4,21 +4,39 @@ import itertools
 DRIVER = "c01"
 MODEL = "C01"
 MODEL_QUALID = "Model.Bulkhead.run_script"
-FORMAT = ("script [cap; max_wait_ms (-1 none, >= 10^15 = Duration::MAX); n + 1000*flags; (op a b)*] op 1=Poll a 2=Drop a 3=Advance a(ms) "
+FORMAT = ("script [cap; max_wait (-1 none, >= 10^15 = Duration::MAX); n + 1000*flags; (op a b)*] op 1=Poll a 2=Drop a 3=Advance a "
+          "(durations: a value below 2^40 is in ms, 2^40 + k is k ns) "
           "4=Complete a b(0 ok,1 err,2 panic in the response future,3 synchronous panic inside the inner service's call()) "
-          "5=Call a (create the call future without polling it); events on caller ids outside 0..n-1 are ignored; "
+          "5=Call a (create the call future without polling it) 6=call() for every caller still without a future, then drop every service handle; events on caller ids outside 0..n-1 are ignored; "
           "flags: %8 builder route (0 max_concurrent_calls+max_wait_duration, 1 reject_when_full, 2 small, 3 medium, 4 large, 5 default cap, 6 small+max_wait_duration), "
-          "/8%4 handle (0 fresh clone per caller, 1 one shared handle, 2 the layer()'d service itself, 3 chain of clones), /32%2 panicking listeners; "
+          "/8%4 handle (0 fresh clone per caller, 1 one shared handle, 2 the layer()'d service itself, 3 chain of clones), /32%2 panicking listeners, /64%2 completed call futures are kept alive until dropped; "
           "then every caller is dropped and cap+1 fresh callers are polled once (capacity probe). "
           "trace: per event [r; inner calls started inside this poll; max in-flight seen by an inner call started during the event; wake mask (first 120 callers); in-flight; "
           "ids(+1, base 1024) of all requests whose inner call started during the event] with r: -1 no poll, 0 pending, 1 Ok, 2 Err(Inner), 3 Timeout, 4 BulkheadFull, 5 panicked, 9 nothing to poll")
 TRUSTED = ["tokio Semaphore (FIFO hand-over on release), time::timeout (inner future polled before the timer) and oneshot are modelled, tied to the libraries only by this correspondence run",
            "poll atomicity: shared state is touched only inside one poll",
            "all clones / handles of one Bulkhead share one semaphore and every builder route yields (max_concurrent_calls, max_wait_duration): not in the model, exercised by the handle / route flags of the scripts"]
-ASSUMPTIONS = ["whole-millisecond instants", "single-threaded deterministic executor: one poll at a time"]
+ASSUMPTIONS = ["tokio's timer wheel has millisecond resolution: a wait deadline that is not a whole millisecond (counted from the start of the runtime) takes effect at the next millisecond tick -- 'exactly max_wait_duration' holds up to that tick (never early, less than 1 ms late)",
+               "single-threaded deterministic executor: one poll at a time"]
 # scripts on which the REAL code violates the property (none known)
 KNOWN_DEFECT = []
 DMAX = 10 ** 18
+DUR_FLAG = 1 << 40
+MS = 10 ** 6
+
+
+def ns_of(e):
+    """Lib/TokioTime.ns_of: script duration -> nanoseconds"""
+    return max(0, e) * MS if e < DUR_FLAG else e - DUR_FLAG
+
+
+def us(k):
+    """script encoding of k microseconds"""
+    return DUR_FLAG + 1000 * k
+
+
+def ceil_ms(t):
+    return -((-t) // MS) * MS
 ROWLEN = 6
 MASKW = 120
 
@@ -31,7 +49,7 @@ def header(s):
 def events(s):
     cap, mw, n, flags = header(s)
     evs = [tuple(s[i:i + 3]) for i in range(3, len(s) - (len(s) - 3) % 3, 3)]
-    evs = [e for e in evs if e[0] == 3 or (e[0] in (1, 2, 4, 5) and 0 <= e[1] < n)]
+    evs = [e for e in evs if e[0] in (3, 6) or (e[0] in (1, 2, 4, 5) and 0 <= e[1] < n)]
     evs += [(2, i, 0) for i in range(n)] + [(1, i, 0) for i in range(n, n + cap + 1)]
     return cap, mw, n, evs
 
@@ -52,8 +70,8 @@ def started_ids(ids):
     return out
 
 
-def nf(n, route=0, handle=0, listen=0):
-    return n + 1000 * (route + 8 * handle + 32 * listen)
+def nf(n, route=0, handle=0, listen=0, keep=0):
+    return n + 1000 * (route + 8 * handle + 32 * listen + 64 * keep)
 
 
 def corpus():
@@ -91,6 +109,21 @@ def corpus():
         # events on ids outside 0..n-1 are ignored by model, driver and decoder alike
         [1, -1, 1, 1, 7, 0, 4, -1, 0, 2, 1, 0, 5, 3, 0, 1, 0, 0, 9, 0, 0],
         sequential(None, 1, -1, 60, handle=1), sequential(None, 2, 5, 55, handle=2),
+        # a waiter that cannot get a slot ends with the TIMEOUT error (and nothing else), zero wait and after a real wait
+        [1, 0, 2, 1, 0, 0, 1, 1, 0],
+        [1, 7, 3, 1, 0, 0, 1, 1, 0, 5, 2, 0, 3, 3, 0, 1, 2, 0, 3, 4, 0, 1, 1, 0, 1, 2, 0, 3, 3, 0, 1, 2, 0],
+        # sub-millisecond max_wait (300 us): not a zero wait -- pending at 200 us .. 900 us, Timeout at the 1 ms tick
+        [1, us(300), 2, 1, 0, 0, 1, 1, 0, 3, us(200), 0, 1, 1, 0, 3, us(100), 0, 1, 1, 0, 3, us(600), 0, 1, 1, 0, 3, us(100), 0, 1, 1, 0],
+        [1, us(1500), 3, 1, 0, 0, 3, us(700), 0, 1, 1, 0, 3, 1, 0, 1, 1, 0, 3, us(300), 0, 1, 2, 0, 3, 1, 0, 1, 1, 0, 3, 1, 0, 1, 2, 0, 3, 1, 0, 1, 2, 0],
+        # zero wait off the millisecond tick: queued until the next tick
+        [1, 0, 3, 1, 0, 0, 3, us(300), 0, 1, 1, 0, 3, us(600), 0, 1, 1, 0, 3, us(100), 0, 1, 1, 0, 1, 2, 0],
+        # finished call futures kept alive by their callers: the slot is back at completion, not at drop
+        [1, -1, nf(3, keep=1), 1, 0, 0, 4, 0, 0, 1, 0, 0, 1, 1, 0, 4, 1, 1, 1, 1, 0, 1, 2, 0],
+        [2, 5, nf(4, keep=1, handle=1), 1, 0, 0, 1, 1, 0, 1, 2, 0, 4, 0, 2, 1, 0, 0, 1, 2, 0, 4, 1, 0, 1, 1, 0, 1, 3, 0],
+        # every service handle dropped while calls are running, queued and not yet polled: they go on as before
+        [1, 50, 3, 1, 0, 0, 1, 1, 0, 6, 0, 0, 3, 10, 0, 1, 1, 0, 4, 0, 0, 1, 0, 0, 1, 1, 0, 1, 2, 0],
+        [1, -1, nf(3, handle=1), 1, 0, 0, 1, 1, 0, 5, 2, 0, 6, 0, 0, 1, 2, 0, 2, 0, 0, 1, 1, 0],
+        [2, 20, nf(4, handle=3), 6, 0, 0, 1, 0, 0, 1, 1, 0, 1, 2, 0, 3, 20, 0, 1, 2, 0, 1, 3, 0],
     ]
 
 
@@ -148,11 +181,18 @@ def random_config(rng, maxn):
         handle = rng.choice([1, 2, 3])
     if rng.random() < 0.15:
         listen = 1
-    return cap, mw, n, nf(n, route, handle, listen)
+    keep = 1 if rng.random() < 0.3 else 0
+    if route == 0 and rng.random() < 0.08:
+        mw = rng.choice([us(1), us(300), us(999), us(1500), us(2300)])
+    return cap, mw, n, nf(n, route, handle, listen, keep)
 
 
-def random_event(rng, n):
+def random_event(rng, n, sub=False):
     x = rng.random()
+    if x < 0.015:
+        return [6, 0, 0]                      # every service handle goes away
+    if sub and 0.62 <= x < 0.80:
+        return [3, rng.choice([us(100), us(250), us(700), us(999), 1, 1, us(1300), 2]), 0]
     if x < 0.45:
         return [1, rng.randrange(n), 0]
     if x < 0.5:
@@ -168,13 +208,78 @@ def random_script(rng, maxn=6, maxlen=30):
     cap, mw, n, nflags = random_config(rng, maxn)
     s = [cap, mw, nflags]
     L = rng.randint(3, maxlen)
+    sub = mw >= DUR_FLAG and mw < 10 ** 15 or rng.random() < 0.03
     for _ in range(L):
-        s += random_event(rng, n)
+        s += random_event(rng, n, sub)
     if rng.random() < 0.25:
         # spare capacity mid-history: the callers not used so far arrive one after the other while the others stay
         for i in range(n):
             if rng.random() < 0.6:
                 s += [1, i, 0]
+    return s
+
+
+def deadline_script(rng):
+    """waiters that really wait: call() before or at the first poll, first polls at different instants, then the clock
+    is put exactly on (or one step before / after) call()+max_wait and first-poll+max_wait and the waiters are polled;
+    a slot may be given back at that very instant, before or after the waiter's poll (tie)"""
+    cap = rng.choice([1, 1, 2])
+    sub = rng.random() < 0.25
+    mwv = rng.choice([300, 1000, 1500, 2300]) if sub else rng.choice([2, 5, 5, 20])   # us / ms
+    enc = (lambda k: us(k)) if sub else (lambda k: k)
+    step = (lambda: rng.choice([100, 300, 700, 1000])) if sub else (lambda: rng.choice([1, 1, 2, 3]))
+    k = rng.randint(1, 3)
+    n = cap + k
+    s = [cap, enc(mwv), nf(n, 0, rng.choice([0, 0, 1, 2, 3]), 0, rng.randrange(2))]
+    for i in range(cap):
+        s += [1, i, 0]
+    t = 0
+    info = []
+    for w in range(cap, n):
+        if rng.random() < 0.5:
+            s += [5, w, 0]
+            c0 = t
+            d = step(); s += [3, enc(d), 0]; t += d
+        else:
+            c0 = None
+        s += [1, w, 0]
+        info.append((w, c0 if c0 is not None else t, t))
+        if rng.random() < 0.5:
+            d = step(); s += [3, enc(d), 0]; t += d
+    # visit the interesting instants in order
+    marks = sorted(set(x for (w, c0, f0) in info for x in (c0 + mwv, f0 + mwv)))
+    for m in marks:
+        for tgt in ([m - (100 if sub else 1), m] if rng.random() < 0.5 else [m]):
+            if tgt > t:
+                s += [3, enc(tgt - t), 0]; t = tgt
+            order = [w for (w, _, _) in info]
+            rng.shuffle(order)
+            rel = rng.random() < 0.3
+            if rel and rng.random() < 0.5:
+                i = rng.randrange(cap); s += [4, i, rng.choice([0, 1, 2]), 1, i, 0]
+            for w in order:
+                if rng.random() < 0.8:
+                    s += [1, w, 0]
+            if rel:
+                i = rng.randrange(cap); s += [4, i, 0, 1, i, 0]
+    d = step(); s += [3, enc(d), 0]
+    for (w, _, _) in info:
+        s += [1, w, 0]
+    return s
+
+
+def handles_script(rng):
+    """service handles have their own lifetime: calls running, queued, created-but-unpolled when the last one goes"""
+    cap = rng.choice([1, 2])
+    mw = rng.choice([-1, 0, 5, 20, 50])
+    n = cap + rng.randint(1, 4)
+    s = [cap, mw, nf(n, 0, rng.randrange(4), rng.randrange(2), rng.randrange(2))]
+    pre = rng.randint(0, 8)
+    for _ in range(pre):
+        s += random_event(rng, n)
+    s += [6, 0, 0]
+    for _ in range(rng.randint(3, 14)):
+        s += random_event(rng, n)
     return s
 
 
@@ -214,6 +319,8 @@ def generate(rng, tier):
             cap = rng.choice([1, 2, 3, 4, 8])
             out.append(fill(cap, rng.choice([-1, 0, 5, DMAX]), cap + rng.randint(1, 4), 0, rng.randrange(4), rng.randrange(2), rng))
         out += [sequential(rng, rng.choice([1, 2, 3]), rng.choice([-1, 0, 5]), rng.randint(50, 80), rng.choice([1, 1, 2, 3, 0]), rng.randrange(2)) for _ in range(20)]
+        out += [deadline_script(rng) for _ in range(500)]
+        out += [handles_script(rng) for _ in range(150)]
     else:
         out += [random_script(rng, 8, 60) for _ in range(20000)]
         out += list(exhaustive(4, 1, 2, 3))
@@ -221,6 +328,8 @@ def generate(rng, tier):
         out += list(exhaustive(3, 1, 0, 3))
         out += list(exhaustive_timeout(6, 1, 2, 3))
         out += list(exhaustive_timeout(5, 2, 2, 3))
+        out += [deadline_script(rng) for _ in range(8000)]
+        out += [handles_script(rng) for _ in range(2000)]
         for _ in range(300):
             cap, mw, route = rng.choice(presets)
             out.append(fill(cap, mw, cap + rng.randint(1, 6), route, rng.randrange(4), rng.randrange(2), rng))
@@ -248,9 +357,11 @@ def extended(rng, mism):
                 t += random_event(rng, n)
             out.append(t)
         if head[2] < 1000:
-            for mw in (-1, 0, 5, 20, DMAX):
+            for mw in (-1, 0, 5, 20, DMAX, us(300)):
                 out.append([head[0], mw, head[2]] + body)
-    out += [random_script(rng, 8, 40) for _ in range(6000)]
+    out += [random_script(rng, 8, 40) for _ in range(5000)]
+    out += [deadline_script(rng) for _ in range(1500)]
+    out += [handles_script(rng) for _ in range(500)]
     out += list(exhaustive_timeout(5, 1, 2, 3))
     return out
 
@@ -272,11 +383,14 @@ def nontrivial(s, t):
 def classify(s, t):
     d = decode(s, t)
     cap, mw, n, flags = header(s)
-    out = ["cap%s" % (cap if cap <= 3 else ("4to8" if cap <= 8 else "%d" % cap if cap in (10, 25, 50, 200) else "9plus")),
-           "maxwait_%s" % ("none" if mw < 0 else ("zero" if mw == 0 else ("duration_max" if mw >= 10 ** 15 else ("finite" if mw <= 1000 else "huge")))),
+    sub = any(DUR_FLAG <= v < 10 ** 15 for v in [mw] + [s[i + 1] for i in range(3, len(s) - 2, 3) if s[i] == 3])
+    out = (["sub_millisecond"] if sub else []) + ["cap%s" % (cap if cap <= 3 else ("4to8" if cap <= 8 else "%d" % cap if cap in (10, 25, 50, 200) else "9plus")),
+           "maxwait_%s" % ("none" if mw < 0 else ("zero" if mw == 0 else ("duration_max" if mw >= 10 ** 15 else ("sub_ms" if mw >= DUR_FLAG else ("finite" if mw <= 1000 else "huge"))))),
            "route%d" % (flags % 8), "handle%d" % (flags // 8 % 4)]
     if flags // 32 % 2:
         out.append("panicking_listeners")
+    if flags // 64 % 2:
+        out.append("finished_futures_kept")
     if n >= 50:
         out.append("long_history")
     if d:
@@ -287,6 +401,8 @@ def classify(s, t):
         body = d[3][:-(d[2] + d[0] + 1)]
         if any(e[0] == 2 for (e, _) in body):
             out.append("has_cancel")
+        if any(e[0] == 6 for (e, _) in body):
+            out.append("handles_dropped")
         if any(e[0] == 4 and e[2] == 3 for (e, _) in body):
             out.append("sync_panic_in_call")
         if any(o[4] == cap for (_, o) in body):
@@ -302,3 +418,4 @@ def shrink(s):
         yield head + body[:3 * i] + body[3 * i + 3:]
     if head[2] >= 1000 and head[2] // 1000 % 8 in (0, 1):
         yield [head[0], head[1], head[2] % 1000] + body
+        yield [head[0], head[1], head[2] % 1000 + 1000 * (head[2] // 1000 & 64)] + body
